@@ -88,6 +88,7 @@ class Unit:
         self.drop_report = {}
         self.trusted = []      # external_body / assume_specification / assume( / admit( lines
         self.verus_flags = []
+        self.imported = []
         self._parse()
 
     def _parse(self):
@@ -128,6 +129,24 @@ class Unit:
                 if cur_text:
                     self.chunks.append(('text', cur_text))
                     cur_text = []
+                continue
+            if d == 'stub':
+                if lift is not None or lemma is not None:
+                    raise Lost('stub inside a block at %s' % where)
+                uname, _, oname = rest.partition(' :: ')
+                if cur_text:
+                    self.chunks.append(('text', cur_text))
+                    cur_text = []
+                self.chunks.append(('stub', uname.strip(), oname.strip(), where))
+                continue
+            if d == 'import-spec':
+                if lift is not None or lemma is not None:
+                    raise Lost('import-spec inside a block at %s' % where)
+                uname, _, names = rest.partition(' :: ')
+                if cur_text:
+                    self.chunks.append(('text', cur_text))
+                    cur_text = []
+                self.chunks.append(('import', uname.strip(), names.split(), where))
                 continue
             if d == 'lemma':
                 mm = re.match(r'(\S+)\s+props\s+(.*)$', rest)
@@ -211,6 +230,7 @@ class Unit:
         self.obligations = []
         self.gen_lines = []
         self.drop_report = {}
+        self.imported = []
         tpl = os.path.relpath(self.path, os.path.dirname(os.path.dirname(self.path)))
 
         def emit(text, origin):
@@ -220,6 +240,63 @@ class Unit:
             if ch[0] == 'text':
                 for l in ch[1]:
                     emit(l, None)
+            elif ch[0] == 'import':
+                # spec functions shared between a proving unit and a using unit are copied mechanically, never by hand
+                opath = os.path.join(os.path.dirname(self.path), ch[1] + '.rs')
+                try:
+                    osrc = Source(ch[1] + '.rs', open(opath).read())
+                except OSError as e:
+                    raise Lost('import-spec at %s: %s' % (ch[3], e))
+                from extract import scan_items
+                from rustlex import match_close
+                toks = osrc.toks
+                vk = [k for k, t in enumerate(toks) if t.kind == 'ident' and t.text == 'verus'
+                      and k + 2 < len(toks) and toks[k + 1].text == '!']
+                if not vk:
+                    raise Lost('import-spec at %s: no verus! block in %s' % (ch[3], opath))
+                bo = vk[0] + 2
+                while toks[bo].text != '{':
+                    bo += 1
+                items = [it for it in scan_items(osrc, bo + 1, match_close(toks, bo)) if it['kind'] == 'fn']
+                for nm in ch[2]:
+                    found = [it for it in items if it['name'] == nm]
+                    if len(found) != 1:
+                        raise Lost('import-spec %s :: %s at %s: %d matches' % (ch[1], nm, ch[3], len(found)))
+                    it = found[0]
+                    st = it['kw']
+                    while True:
+                        q = st - 1
+                        while q > 0 and toks[q].kind in ('ws', 'comment'):
+                            q -= 1
+                        if toks[q].kind == 'ident' and toks[q].text in ('pub', 'open', 'closed', 'spec', 'uninterp', 'broadcast'):
+                            st = q
+                        else:
+                            break
+                    text = osrc.text[toks[st].start:toks[it['end']].end]
+                    if not re.search(r'\bspec\s+fn\b', text.split('{')[0]):
+                        raise Lost('import-spec %s :: %s is not a spec fn' % (ch[1], nm))
+                    emit('// spec fn imported mechanically from unit `%s`' % ch[1], None)
+                    for l in text.split('\n'):
+                        emit(l, None)
+            elif ch[0] == 'stub':
+                import copy
+                other = Unit(os.path.join(os.path.dirname(self.path), ch[1] + '.rs'))
+                found = [c[1] for c in other.chunks if c[0] == 'lift' and c[1].name == ch[2]]
+                if len(found) != 1:
+                    raise Lost('stub %s :: %s at %s: %d matching lifts' % (ch[1], ch[2], ch[3], len(found)))
+                sl = copy.copy(found[0])
+                if not sl.spec:
+                    raise Lost('stub %s :: %s has no contract to import' % (ch[1], ch[2]))
+                sl.stub = True
+                sl.rewrites, sl.loops, sl.before, sl.after = [], {}, [], []
+                for mname, mfile in getattr(sl, 'expand_files', {}).items():
+                    sl.expand[mname] = load_macro(self.source(mfile), mname)
+                src = self.source(sl.file)
+                segs, report, info = lift_item(src, sl)
+                emit('// contract imported mechanically from unit `%s`, obligation `%s`, where it is proved on the lifted body' % (ch[1], ch[2]), None)
+                for text, oline in segments_to_lines(segs, src):
+                    emit(text, None)
+                self.imported.append('%s: contract of %s imported from unit %s (proved there)' % (self.name, ch[2], ch[1]))
             elif ch[0] == 'lemma':
                 ob = Obligation(self.name, ch[1], ch[2], 'lemma')
                 first = len(self.gen_lines) + 1
@@ -276,6 +353,8 @@ class Unit:
                         if t2.strip():
                             shown += ' ' + t2.strip()
                             break
+                if no >= 2 and 'contract imported mechanically' in self.gen_lines[no - 2][0]:
+                    shown = '[contract imported from its proving unit] ' + shown
                 self.trusted.append('%s: %s' % (self.name, shown[:200]))
         return text
 
